@@ -321,6 +321,15 @@ pub fn run(session: &Session) -> i32 {
         "f := (a: int, b: int, c: int) -> int { return a + b * c; }",
         "f := std.len",
         "f := std.convert.to_float",
+        // a parameter spelled like the function hides the function inside the body
+        "f := (f: int) -> int { return f + 1; }",
+        "f := (f: any) -> any { return f; }",
+        "f := (n: int, f: int) -> int { return n * f; }",
+        "f := (f: string, n: int) -> string { return f + n; }",
+        // recursion and capture through the host call
+        "f := (n: int) -> int { if n <= 0 { return 0; } return n + f(n - 1); }",
+        "k := mut 10; f := (n: int) -> int { k += n; return *k; }",
+        "g := (n: int) -> int { return n * 2; }; f := (n: int) -> int { return g(n) + 1; }",
     ];
     let pool = ["1", "\"s\"", "2.5", "[1]", "()", "true", "(1, 2)"];
     for program in functions {
@@ -347,7 +356,7 @@ pub fn run(session: &Session) -> i32 {
         session.run_tapes(&C17, session.tier.of(12_000, 600_000), 600, 0);
     }
     session.finish(
-        "(repl) tape-generated typed programs are split into REPL inputs of 1-3 top-level statements; after every input the incremental route (parse against the live interpreter, exec_unscoped) is compared with the batch route (the whole prefix as one program into a fresh interpreter) on the last result and on the canonical value of every top-level variable, until the routes diverge in acceptance (allowed, counted) or end in the same error; the full program is then executed twice from one Code: equal canonical results, no cell of the first result is the same object as a cell of the second, and the interpreter the code was parsed against has none of the program's names. (call) every third (quick) / every (thorough) accepted one-parameter function of the operator x operand-type matrix x every value of every catalogue type, plus arity changes, and 12 functions of 0 to 3 parameters (user-written, native and user-written iterators, std functions) x argument lists of 0 to 4 values: Function::create_call must accept exactly the argument lists the in-language call `f(v)` accepts and return the same value or error. Non-trivial = a later input mentions an earlier binding / an ill-typed or wrong-arity argument list; distinct by text.",
+        "(repl) tape-generated typed programs are split into REPL inputs of 1-3 top-level statements; after every input the incremental route (parse against the live interpreter, exec_unscoped) is compared with the batch route (the whole prefix as one program into a fresh interpreter) on the last result and on the canonical value of every top-level variable, until the routes diverge in acceptance (allowed, counted) or end in the same error; the full program is then executed twice from one Code: equal canonical results, no cell of the first result is the same object as a cell of the second, and the interpreter the code was parsed against has none of the program's names. (call) every third (quick) / every (thorough) accepted one-parameter function of the operator x operand-type matrix x every value of every catalogue type, plus arity changes, and 19 functions of 0 to 3 parameters (user-written incl. parameters spelled like the function, recursion and captured cells, native and user-written iterators, std functions) x argument lists of 0 to 4 values: Function::create_call must accept exactly the argument lists the in-language call `f(v)` accepts and return the same value or error. Non-trivial = a later input mentions an earlier binding / an ill-typed or wrong-arity argument list; distinct by text.",
         false,
         &["acceptance differences between the routes of the REPL comparison are permitted by the property and end the comparison of that case"],
     )
